@@ -4,11 +4,11 @@
 //! ops:  `interval <n>` then `in <t>` | `out <t>` | `sample <t>` | `consume`
 //! out:  per event `ok` | `group none` | `group <b> <e> <c>` | `delta <n>` | `panic`,
 //!       then `final <unknown|on|off> <t> <onAcc> <offAcc>`
-use crate::common::*;
+use verif_harness::common::*;
 use std::panic::{catch_unwind, AssertUnwindSafe};
 
 #[allow(dead_code)]
-#[path = "/repo/samply/src/shared/context_switch.rs"]
+#[path = "../../../repo-link/samply/src/shared/context_switch.rs"]
 mod context_switch;
 use context_switch::{ContextSwitchHandler, ThreadContextSwitchData};
 
@@ -163,4 +163,8 @@ impl Prop for C12 {
         // at least one running gap accounted and one sleep closed
         ops.len() >= 3 && out.iter().any(|l| l.starts_with("delta ") || l.starts_with("group "))
     }
+}
+
+fn main() {
+    verif_harness::runner::run_main(&C12);
 }
